@@ -292,6 +292,7 @@ pub fn exec_ksp(kc: &KCase, b: &Built, sim: &Option<Sim>) -> KExec {
         query["weight_factor"] = w.clone();
     }
     let dir = if c.reverse { Direction::Reverse } else { Direction::Forward };
+    crate::watch::enter(|| format!("{:?}", kc));
     verif_clock::set(clock_of(&c.term));
     verif_hook::start();
     let res = std::panic::catch_unwind(std::panic::AssertUnwindSafe(|| {
@@ -301,6 +302,7 @@ pub fn exec_ksp(kc: &KCase, b: &Built, sim: &Option<Sim>) -> KExec {
             alg.run_vertex_oriented(VertexId(c.source), c.target.map(VertexId), &query, &dir, &b.si)
         }
     }));
+    crate::watch::leave();
     let trace = verif_hook::take();
     verif_clock::set(None);
     let mut scheds: Vec<Vec<usize>> = vec![];
